@@ -14,7 +14,7 @@ DETECTION = {
  "S08": ("C12", "quick", "level 1: task permutation with 2 workers on project contract (two contracts); needed the H1 shim to offer try_for_each_with (build failed before) and a second contract in the template"),
  "S09": ("C12", "quick", "level 1: project errors (ambiguous impl + explicit use in another module), prefix analyses the other module first; missed before the errors project existed"),
  "S10": ("C13", "quick", "insert a line above an item with diagnostics, query, compare: stale line/column"),
- "S11": ("C13", "quick", "swap_adjacent_lines of two struct members in one edit: Sierra keeps the old member order; missed before the adjacent-swap edit kinds existed (then 2 of 3 seeds with 96 histories); quick runs 64 histories since, which catches it with the default seed (with other seeds it may take thorough)"),
+ "S11": ("C13", "thorough", "swap_adjacent_lines of two struct members in one edit: Sierra keeps the old member order; missed before the adjacent-swap edit kinds existed (then 2 of 3 seeds with 96 histories); quick caught it with 64 histories and the default seed for a while; after the corpus grew (18 projects share the histories) it is thorough that reports it (first batch)"),
  "S12": ("C13", "quick", "disk write under an override, unset: incremental database keeps the first-read content"),
  "S13": ("C03", "quick", "generated downcast instantiation (below-only, positive lower bound) + flipped TestLessThan"),
  "S14": ("C03", "quick", "missed at first (quick and 240 s thorough): no target range ending exactly at 2^128-1; caught after the generator draws half of its endpoints from the switch values (0, 2^128-1, 2^128, signed bounds) and bounded.cairo got dc_felt_upper_at_rc_bound"),
@@ -38,6 +38,12 @@ DETECTION = {
  "S33": ("C12", "quick", "missed at first (no two destructors meeting at one program point); caught after pipeline got dtypes/uses_da/uses_db/uses_both (two never-inlined Destruct impls, values dropped at the same point), by the warm-up permutation alone (2 workers, no prefix)"),
  "S34": ("C12", "quick", "level 1, history prefix compiling one caller first"),
  "S35": ("C12", "quick", "missed at first (every signature type also occurred in some libfunc); caught after pipeline got three signature-only empty structs in three modules: type declaration order follows interning order under a 2-worker warm-up"),
+ "S36": ("C12", "quick", "level 1, project dapp (three #[abi(embed_v0)] aliases, glue.cairo mentions the later ones): contract class differs under the 2-worker warm-up permutation alone; written after the seed arrived - the older component project had one embedded alias only"),
+ "S37": ("C12", "quick", "level 1, project dapp (IMarket::tune takes Quota, Tariff, Tag from three modules): order of struct items in the ABI differs under a 2-worker warm-up"),
+ "S38": ("C12", "quick", "level 1, project dapp (three components sharing the storage name nonce): the colliding-path warning names another pair after one prefix op"),
+ "S39": ("C13", "quick", "needed two additions: the edit that toggles #[flat] / #[key] on event fields (change_attribute) and the contract classes (ABI, entry points) as part of the C13 observable for Starknet projects; 3-op history on dapp: ABI keeps the old event kind"),
+ "S40": ("C13", "quick", "add_variant_or_member / rename on a struct with derived PartialEq: stale generated impl (Sierra differs or a member-not-found error)"),
+ "S41": ("C13", "thorough", "missed at first (no item-level macro whose plugin diagnostic has an inner span); after compile_error!(3 + 4) in errors/dup.cairo and the snerrors project (component! argument errors) thorough reports a stale column after shift_space_in_line; the 128 short histories of quick miss it with the default seed"),
  "S20": ("C12", "thorough", "missed at first: a process-wide static std Mutex taken with try_lock around a pure computation; contention needs a preemption inside a critical section that contains no synchronisation point shuttle controls. Caught by thorough since level 2 has the allocator-driven preemption seam (a task can lose the processor k allocations after a query event): Sierra of the circuits project differs under a PCT/random schedule with 8 workers, replayable. Before level-1 runs were isolated in child processes the harness's own worker threads contended on that static and produced a difference that did not replay (reported as a harness error, exit 2) - which is why every run now executes in its own process."),
 }
 for d in sorted(glob.glob(os.path.join(ROOT, "seeded", "S*"))):
